@@ -355,6 +355,8 @@ func propC01(c *Ctx) {
 		ruleEvalInherit(c, ri, roles)
 		rra := c.Rule("reset-always", "the function that prepares the optimizer's evaluator empties its symbol table on every path (reset or a new table) before the builtin states are inherited", 1)
 		ruleResetAlways(c, rra, roles)
+		rrt := c.Rule("reset-total", "reset removes every symbol of the evaluator's table: no builtin resolved by an earlier evaluation survives to be found before the shadowed names are consulted", 1)
+		ruleResetTotal(c, rrt, roles)
 	}
 	rccf := c.Rule("const-cache-float", "a Float constant reaches the value-keyed constant cache only after the sign of a zero has been examined (0.0 and -0.0 are one map key; the optimizer folds -0.0 into a literal, the plain compiler negates at run time)", 1)
 	ruleConstCacheFloat(c, rccf)
